@@ -6,6 +6,7 @@ import (
 	"encoding/json"
 	"strconv"
 	"strings"
+	"time"
 )
 
 // Independent evaluator of NUT-10/11/14 spending conditions, written from the property statements
@@ -23,13 +24,13 @@ type Lock struct {
 	Malformed bool // tags / keys malformed: the statement only keeps its core (see EvalInput)
 	// LocktimeUnknown: a locktime tag is present but cannot be read (no value, not a number)
 	LocktimeUnknown bool
-	SigAll    bool
-	NSigs     int
-	HasNSigs  bool
-	Pubkeys   []string
-	Locktime  int64
-	HasLock   bool
-	Refund    []string
+	SigAll          bool
+	NSigs           int
+	HasNSigs        bool
+	Pubkeys         []string
+	Locktime        int64
+	HasLock         bool
+	Refund          []string
 }
 
 // ParseLock parses a secret the way NUT-10 defines it: ["KIND", {"nonce":..,"data":..,"tags":[[..]]}].
@@ -284,10 +285,12 @@ func EvalInput(secret, witness string, now int64, verify SigVerifier) Verdict {
 
 // SigAllCondition is the shared condition of SIG_ALL inputs as far as the statement defines it.
 type SigAllCondition struct {
-	Kind    string
-	Keys    string // canonical rendering of data key + pubkeys
-	NSigs   int
-	Data    string
+	Kind     string
+	Keys     string // canonical rendering of data key + pubkeys
+	NSigs    int
+	Data     string // the lock value itself: the P2PK key, the HTLC hash
+	Locktime int64
+	Refund   string
 }
 
 func (l Lock) cond() SigAllCondition {
@@ -299,13 +302,23 @@ func (l Lock) cond() SigAllCondition {
 	if l.NSigs > 0 {
 		need = l.NSigs
 	}
-	return SigAllCondition{Kind: l.Kind, Keys: strings.Join(keys, ","), NSigs: need}
+	// "all inputs share the same condition": the same kind, the same lock value (key / hash), the same signers and
+	// threshold, the same locktime and the same refund keys - everything of a lock but its nonce
+	return SigAllCondition{Kind: l.Kind, Keys: strings.Join(keys, ","), NSigs: need, Data: strings.ToLower(l.Data),
+		Locktime: l.Locktime, Refund: strings.Join(l.Refund, ",")}
 }
 
 // EvalSwapSigAll evaluates the swap-level SIG_ALL rule. anySigAll reports whether the rule applies.
 // necessary: every input is a SIG_ALL lock with the same condition and every output carries >= need valid
 // signatures over sha256(bytes of B_) by listed keys (lock key, pubkeys or refund keys), plus (HTLC) the preimage.
 func EvalSwapSigAll(secrets []string, outputsB []string, outputWitness []string, verify SigVerifier) (anySigAll bool, necessary bool, why string) {
+	return EvalSwapSigAllAt(secrets, outputsB, outputWitness, time.Now().Unix(), verify)
+}
+
+// EvalSwapSigAllAt: as EvalSwapSigAll at a given time. After the locktime only the refund rule applies - to the
+// outputs as to the inputs: no refund key, nothing is required of the outputs; otherwise every output carries a valid
+// signature by a refund key (no preimage).
+func EvalSwapSigAllAt(secrets []string, outputsB []string, outputWitness []string, now int64, verify SigVerifier) (anySigAll bool, necessary bool, why string) {
 	locks := make([]Lock, len(secrets))
 	for i, s := range secrets {
 		locks[i] = ParseLock(s)
@@ -331,6 +344,22 @@ func EvalSwapSigAll(secrets []string, outputsB []string, outputWitness []string,
 			return true, false, "conditions_differ"
 		}
 	}
+	if first.HasLock && now > first.Locktime {
+		if len(first.Refund) == 0 {
+			return true, true, "expired_no_refund"
+		}
+		for i, b := range outputsB {
+			raw, err := hex.DecodeString(b)
+			if err != nil {
+				return true, false, "output_B_not_hex"
+			}
+			h := sha256.Sum256(raw)
+			if distinctValid(first.Refund, h[:], ParseWitness(outputWitness[i]).Signatures, verify) < 1 {
+				return true, false, "expired_output_not_signed_by_refund_key"
+			}
+		}
+		return true, true, "expired_refund"
+	}
 	need := 1
 	if first.NSigs > 0 {
 		need = first.NSigs
@@ -352,8 +381,10 @@ func EvalSwapSigAll(secrets []string, outputsB []string, outputWitness []string,
 			if err != nil || !strings.EqualFold(hex.EncodeToString(hp[:]), first.Data) {
 				return true, false, "output_without_preimage"
 			}
-			if first.NSigs == 0 && len(first.Pubkeys) == 0 {
-				continue // no signing key exists: statement silent on signatures
+			if first.NSigs <= 0 {
+				// "when a signature threshold is set": without one an HTLC asks for the preimage only - of its outputs
+				// as of its inputs
+				continue
 			}
 		}
 		if distinctValid(listed, h[:], w.Signatures, verify) < need {
